@@ -2,7 +2,7 @@
 import math
 
 PROP = "C16"
-LEAN_MODS = ["Cte.Props.C16"]
+LEAN_MODS = ["Cte.Props.C16", "Cte.Props.C16Indicators"]
 HARNESS = "c16"
 N = {"quick": 500, "thorough": 20000}
 KINDS = ["spaces", "walls", "windows", "shades", "thermal_bridges", "wallcons", "wincons", "materials",
